@@ -244,7 +244,8 @@ func c18Tables(c *Ctx, r *Report, p *Prog, f *Folder, cv *curveT) {
 		}
 	}
 	// 3. the mixed routine indexes tables directly: its local scheme constants must be those of the tables it uses
-	c18MixedUse(r, p, pk.TypesInfo, verified)
+	// (the direct table indexing of the mixed routine used to be paired with its local scheme constants here; that
+	// pairing is now decided semantically by C14 SCHEDULE, which does not depend on where the constants are declared)
 }
 
 func c18MixedUse(r *Report, p *Prog, info *types.Info, verified map[string]scheme) {
